@@ -1044,12 +1044,13 @@ class MutableFileVersion:
         new_size = data.get_size() + offset
         old_size = self.get_size()
         segment_size = self._version[3]
-        num_old_segments = mathutil.div_ceil(old_size,
-                                             segment_size)
-        num_new_segments = mathutil.div_ceil(new_size,
-                                             segment_size)
-        log.msg("got %d old segments, %d new segments" % \
-                        (num_old_segments, num_new_segments))
+        if segment_size: # an empty SDMF file has segment size 0
+            num_old_segments = mathutil.div_ceil(old_size,
+                                                 segment_size)
+            num_new_segments = mathutil.div_ceil(new_size,
+                                                 segment_size)
+            log.msg("got %d old segments, %d new segments" % \
+                            (num_old_segments, num_new_segments))
 
         # We do a whole file re-encode if the file is an SDMF file.
         if self._version[2]: # version[2] == SDMF salt, which MDMF lacks
